@@ -23,7 +23,7 @@ COMPONENTS = {'real': ['ikesa.py timers (check_retransmission_timer, check_dead_
 ASSUMPTIONS = ['times are read on the acting node clock (virtual now + skew)', 'the retransmission budget and delay are read from '
                'IkeSa.MAX_RETRANSMISSIONS / RETRANSMISSION_DELAY at run time', 'gap monotonicity is judged only in runs without stall or '
                'clock-jump faults', 'DPD / lifetime bounds are judged only for IKE_SAs that were ESTABLISHED for two ticks in a row']
-EXPECT_REACH = ['retransmissions_seen', 'gave_up_after_budget', 'dpd_started', 'rekey_started', 'crash_bound_checked',
+EXPECT_REACH = ['busy_peer_answers', 'retransmissions_seen', 'gave_up_after_budget', 'dpd_started', 'rekey_started', 'crash_bound_checked',
                 'init_retry_after_cookie_or_ke', 'answered_requests', 'hard_lifetime_delete']
 TICK = 1.0
 EPS = 1e-6
@@ -45,6 +45,7 @@ class TimerOracle:
         self.crash = None       # (victim, t) for the crash-bound clause
         self.sent_idx = {}
         self.crash_checked = set()
+        self.hard_grace = None
         world.monitors.append(self)
 
     def _r(self, k, n=1):
@@ -209,6 +210,18 @@ class TimerOracle:
                 if st['pushback'] is not None and now - st['pushback'] > 2 + 2 * TICK + EPS and now - st['est_since'] > 2 * TICK:
                     return self.viol('rekey_not_retried', {}, f'{N}: IKE_SA {spi}: rekey pushed back {now - st["pushback"]:.1f}s ago '
                                                               f'and not retried')
+        # ---- hard lifetime: an IKE_SA whose rekey never succeeded is deleted 30 s after its lifetime
+        if self.hard_grace is not None:
+            for spi, sa in tab.items():
+                st = self.sa.get((N, spi))
+                conn = self.conn(node, sa)
+                if st is None or conn is None or sa.state.name not in ('ESTABLISHED', 'REK_IKE_SA_REQ_SENT'):
+                    continue
+                age = now - st['created']
+                if age > conn['lifetime'] + 5 + 30 + self.hard_grace:
+                    return self.viol('ike_sa_outlived_hard_lifetime', {'state': sa.state.name},
+                                     f'{N}: IKE_SA {spi} is {age:.1f}s old (lifetime {conn["lifetime"]} + 5 s jitter + 30 s), its rekey never '
+                                     f'succeeded, and it has neither been deleted nor asked to be ({sa.state.name})')
         # ---- IKE_SAs that vanished: was it a give-up? then its kernel SAs must be gone in the same step
         for (nn, spi), st in list(self.sa.items()):
             if nn == N and spi not in tab and not st.get('gone'):
@@ -231,7 +244,7 @@ class TimerOracle:
 
 def generate(seed, tier):
     r = random.Random(f'C13gen:{seed}')
-    batch = r.choice(['loss', 'loss', 'crash', 'crash', 'idle', 'stall', 'jump'])
+    batch = r.choice(['loss', 'loss', 'crash', 'crash', 'idle', 'stall', 'jump', 'busy'])
     conf = {'profile': 'fast', 'entries': 2}
     o = {'conf': conf, 'packets': r.randint(1, 3), 'forced': 2 if batch != 'crash' else 0, 'both_initiate': r.random() < 0.3,
          'forced_kinds': ['expire_soft', 'expire_hard']}
@@ -250,6 +263,15 @@ def generate(seed, tier):
         o['faults'] = [k for k in ('drop',) if r.random() < 0.5]
         o['stall'] = 1.0
         o['duration'] = 60
+    elif batch == 'busy':
+        # the peer answers every IKE_SA rekey request with TEMPORARY_FAILURE (a Byzantine but authentic peer, played by the
+        # interposer with the session keys), optionally under coarse ticks: the hard lifetime must still delete the IKE_SA
+        o['faults'] = []
+        o['forced'] = 0
+        o['both_initiate'] = False
+        conf['ike_lifetime'] = r.choice([8, 12, 20])
+        conf['dpd'] = 60
+        o['duration'] = conf['ike_lifetime'] + 5 + 30 + 40
     else:
         o['faults'] = [k for k in ('drop',) if r.random() < 0.5]
         o['forced'] = 4
@@ -262,6 +284,18 @@ def generate(seed, tier):
         t0 = round(r.uniform(1.0, sc['until'] * 0.6), 3)
         sc['ops'].append({'t': t0, 'op': 'partition'})
         sc['ops'].append({'t': round(t0 + r.choice([1.5, 3.0, 7.0, 13.0, 19.0, 23.0]), 3), 'op': 'heal'})
+    if batch == 'busy':
+        sc['busy'] = {'victim': 'A', 'from': 2.0}
+        # B must not start its own rekey (it would succeed): give it a long lifetime
+        for c in sc['nodes']['B']['conf'].values():
+            c['lifetime'] = 10000
+        if r.random() < 0.7:
+            tick = r.choice([2.2, 3.0, 4.5])
+            t = 3.0
+            while t < sc['until']:
+                sc['ops'].append({'t': round(t, 3), 'op': 'stall', 'node': 'A', 'dur': round(tick - 0.05, 3)})
+                t += tick
+            sc['busy']['tick'] = tick
     if batch == 'stall':
         for _ in range(r.randint(1, 4)):
             sc['ops'].append({'t': round(r.uniform(1.0, 50), 3), 'op': 'stall', 'node': r.choice('AB'), 'dur': r.choice([1.5, 2.5, 5.0, 9.0])})
@@ -294,6 +328,36 @@ def run(scenario):
         wire = ctx['wire'] = WireLog(w)
         ctx['cov'] = workload.Coverage(w)
         orc = ctx['oracle'] = TimerOracle(w, wire, strict)
+        if strict:
+            orc.hard_grace = orc.budget + 6 * TICK
+        busy = scenario.get('busy')
+        if busy:
+            from sim.wiretap import Wiretap
+            from sim.interpose import Interposer
+            from sim import refike as R
+            tap = ctx['tap'] = Wiretap(w, check_reencode=False)
+            ip = ctx['ip'] = Interposer(w, tap)
+            orc.hard_grace = orc.budget + 3 * busy.get('tick', 1.0) + 6 * TICK
+
+            def rule(meta, data):
+                if meta['sender'] != busy['victim'] or w.now < busy['from']:
+                    return None
+                opened = ip.open(data)
+                if opened is None:
+                    return None
+                h, pls, s = opened
+                sa_p = next((p for p in pls if p['type'] == R.P_SA), None)
+                if h['R'] or h['exch'] != R.CREATE_CHILD_SA or sa_p is None or not sa_p['proposals'] or sa_p['proposals'][0]['proto'] != R.PROTO_IKE:
+                    return None
+                orc._r('busy_peer_answers')
+                rr = random.Random(f'busy:{meta["key"]}')
+                resp = ip.seal(s, {'spi_i': h['spi_i'], 'spi_r': h['spi_r'], 'exch': R.CREATE_CHILD_SA, 'I': not h['I'], 'R': True, 'id': h['id']},
+                               [{'type': R.P_NOTIFY, 'proto': 0, 'ntype': R.N_TEMPORARY_FAILURE, 'spi': b'', 'data': b''}],
+                               bytes(rr.getrandbits(8) for _ in range(16)))
+                w.net.inject(resp, meta['dst'], meta['src'], 0.02, 'byz.temporary_failure')
+                return []            # the request itself never reaches the peer
+            rule.label = 'busy_peer'
+            ip.rules.append(rule)
         cr = scenario.get('crash')
         if cr and strict:
             # every kernel SA shared with the dead peer is gone within DPD + retransmission budget (+ ticks + latency in flight)
